@@ -353,10 +353,12 @@ func cmdCheck(args []string) int {
 
 	// Verdicts.
 	exit := 0
+	unstable := false
 	printedKnown := map[string]bool{}
 	printedViol := map[string]bool{}
 	var violSummaries []map[string]interface{}
 	outDir := filepath.Join(verifDir(), "out", prop)
+	_ = os.RemoveAll(outDir) // replay files of earlier runs are stale
 	for _, f := range deciding {
 		if k := matchKnown(known, f); k != nil {
 			id := k.Monitor + "|" + strings.Join(k.Requires, ",") + "|" + k.Input
@@ -377,7 +379,7 @@ func cmdCheck(args []string) int {
 		confirmed := confirmReplay(path)
 		if !confirmed {
 			fmt.Printf("UNSTABLE property=%s monitor=%s replay=%s (did not reproduce 5/5; not reported as violation)\n", prop, f.Monitor, path)
-			exit = 2
+			unstable = true
 			continue
 		}
 		fmt.Printf("VIOLATION property=%s replay=%s\n", prop, path)
@@ -386,6 +388,10 @@ func cmdCheck(args []string) int {
 		if exit == 0 {
 			exit = 1
 		}
+	}
+	if exit == 0 && unstable {
+		// Something fired that does not reproduce deterministically: no verdict.
+		exit = 2
 	}
 	var crossSumm []string
 	seenCross := map[string]bool{}
